@@ -69,7 +69,7 @@ def run(ctx, canary=False):
                        for cl in model.cliques] + [0.0])
             info["max_abs_potential"] = mag
             ctx.violation("returned model is not one coherent distribution: " + "; ".join(bad[:3]), info,
-                          {"kind": "coherence", "solver": solver, "cause": "huge_potentials" if mag > 1e12 else "other"})
+                          {"kind": "coherence", "solver": solver, "cause": "huge_potentials" if mag > 1e6 else "other"})
         tr = E.solver_trace(ev, solver, iters, "stepsize" in opts)
         tr["info"] = {"solver": solver, "iters": iters, "total": total, "options": opts, "n_meas": len(inst["meas"])}
         traces.append(tr)
